@@ -177,7 +177,7 @@ class Run:
         twin = None
         if impl:
             so = open(base + ".stdout", "wb")
-            procs.append(("impl", subprocess.Popen([HARNESS, ops_path, base + ".impl"], stdout=so, stderr=subprocess.PIPE, env=(dict(ENV, **env) if env else ENV)), so))
+            procs.append(("impl", subprocess.Popen([HARNESS, ops_path, base + ".impl"], stdout=so, stderr=subprocess.PIPE, env=dict(ENV, TMPDIR=self.dir, **(env or {}))), so))
             if self.debug_log_twin and not any(o.startswith("tcp") for o in ops_lines):
                 twin = self._start_twin(ops_path, base, env)
         if model:
@@ -207,7 +207,7 @@ class Run:
 
     def _start_twin(self, ops_path, base, env):
         e = dict(ENV, **(env or {}))
-        e.update(RUST_LOG="trace", SQH_DEBUG_LOG="1")
+        e.update(RUST_LOG="trace", SQH_DEBUG_LOG="1", TMPDIR=self.dir)
         return subprocess.Popen([HARNESS, ops_path, base + ".impl2"], stdout=subprocess.DEVNULL, stderr=subprocess.DEVNULL, env=e)
 
     def _judge_twin(self, twin, ops_path, base, env, impl_lines, timeout):
